@@ -85,7 +85,10 @@ ConcurrentOutcome == Outcome("dial_refused", "GET")
 \* passed on). Whatever their size, the memory kept for them is bounded by a constant: otherwise a few connections make
 \* the process run out of memory, which is a crash by "a sequence of bytes from a client or an upstream". The harness
 \* sends 64 MiB of each and watches the live heap (command c12-mem, bound 24 MiB).
-UnboundedInputs == {"request_head_line", "connect_rejection_body"}
+\* - and one that is kept after the exchange: the request method, a token of the client's choice (and as long as a head may
+\* be), new in every request: what the proxy remembers about the methods it has seen (its metrics are labelled by method)
+\* must not grow with them (128 requests with a method of 512 KiB each).
+UnboundedInputs == {"request_head_line", "connect_rejection_body", "request_methods"}
 MemoryBoundMiB == 24
 
 VARIABLE dummy
